@@ -43,15 +43,23 @@ pub fn run(case: &Value) -> Vec<Value> {
     let c = &case["cfg"];
     let config: RouterConfig = serde_json::from_value(json!({
         "ignore_marketing_query_params": c["mkt"], "ignore_path_and_query_case": c["icase"], "pass_marketing_query_params_to_target": c["pass"],
-        "marketing_query_params": ["utm_source"], "always_match_any_host": true,
+        "marketing_query_params": if c["ms"] == "none" { json!([]) } else { json!(["utm_source"]) }, "always_match_any_host": true,
     })).unwrap();
     let urls = case["u"]["urls"].as_array().unwrap();
     let ru = &urls[case["ru"].as_u64().unwrap() as usize - 1];
     let rule_json = json!({"id": "r", "rank": 0, "source": {"path": toks(&ru["path"]),
         "query": if ru["hasq"].as_bool().unwrap_or(false) { json!(raw_query(ru)) } else { Value::Null }}, "status_code": 301, "target": "/t"});
-    let rule: Rule = serde_json::from_value(rule_json).expect("rule");
+    let rule: Rule = serde_json::from_value(rule_json.clone()).expect("rule");
     let mut router = Router::<Rule>::from_config(config.clone());
     router.insert(rule);
+    // twin: the same literal source in a rule that DECLARES a marker (used by its host only / by nothing)
+    let mut twin_json = rule_json;
+    twin_json["markers"] = json!([{"name": "sub", "regex": "[a-z]+", "transformers": []}, {"name": "unused", "regex": "[0-9]+", "transformers": []}]);
+    twin_json["source"]["host"] = json!("@sub.com");
+    let twin: Rule = serde_json::from_value(twin_json).expect("twin rule");
+    let mut router_t = Router::<Rule>::from_config(config.clone());
+    router_t.insert(twin);
+    let mut mm = Vec::new();
     let rule_norm = match serde_json::to_value(router.get_route_by_id("r").unwrap().path_and_query()).unwrap() {
         Value::Object(o) => o.get("Static").and_then(|x| x.as_str()).unwrap_or("<dynamic>").to_string(),
         _ => "?".to_string(),
@@ -77,6 +85,7 @@ pub fn run(case: &Value) -> Vec<Value> {
         let req = Request::from_config(&config, pq.clone(), Some("example.com".to_string()), Some("http".to_string()), None, None, None);
         let routes = router.match_request(&req);
         m.push(!routes.is_empty());
+        mm.push(!router_t.match_request(&req).is_empty());
         norms.push(back(&req.path_and_query()));
         let loc = location(routes, &req);
         locs.push(back(&loc));
@@ -90,5 +99,5 @@ pub fn run(case: &Value) -> Vec<Value> {
         let loc2 = location(router.match_request(&r2), &r2);
         idem.push(json!([fnv(&s1) == fnv(&s2) && s1 == s2 && loc2 == loc, m1]));
     }
-    vec![json!({"ev": "url", "cfg": case["cfg"], "ru": case["ru"], "rule_norm": back(&rule_norm), "m": m, "norms": norms, "locs": locs, "clocs": clocs, "idem": idem})]
+    vec![json!({"ev": "url", "cfg": case["cfg"], "ru": case["ru"], "rule_norm": back(&rule_norm), "m": m, "norms": norms, "locs": locs, "clocs": clocs, "idem": idem, "mm": mm})]
 }
